@@ -5,7 +5,7 @@
 EXTENDS Auto, IOUtils, TLCExt
 
 Arts == JsonDeserialize(IOEnv.TRACE_FILE)
-AllPreds == Preds \o <<"NdimMatches", "FieldIsModelField">>
+AllPreds == Preds \o <<"NdimMatches", "FieldIsModelField", "StpntStateIsInitialState">>
 
 VARIABLE tid
 TInit == /\ tid \in 1..Len(Arts)
